@@ -15,6 +15,7 @@ Helper lemmas: Lemmas/C05Codec.lean, Lemmas/C05Frame.lean, Lemmas/C05WF.lean.
 import KotoVerif.Lemmas.C05Codec
 import KotoVerif.Lemmas.C05Frame
 import KotoVerif.Lemmas.C05WF
+import KotoVerif.Lemmas.C05Sweep
 
 namespace KotoVerif.C05
 open KotoVerif.Gen KotoVerif.Bytecode KotoVerif.Frame
@@ -146,6 +147,21 @@ theorem wf_sound_balance (bytes : List Nat) (consts : List CKind) (h : wfChunk b
     (c : Cfg) (hr : Reach l ⟨base, 0, 0, []⟩ c) : ¬ Fault l c := by
   have hf := wfChunk_units bytes consts h _ hu
   exact good_no_fault consts base need l hf c (good_reach consts base need l hf c hr)
+
+/-- **the listing is the decoding**: every entry of a unit's listing (the instructions the
+soundness theorems speak about) is what `InstructionReader::next` (`decode`) reads at that position
+of the unit's bytes; for the top-level unit these are the chunk's bytes at `pc`. -/
+theorem listing_decodes (base : Nat) (bs : List Nat) (anns : List Ann) (subs : List Sub)
+    (h : unitListing base bs = some (anns, subs)) :
+    ∀ a ∈ anns, base ≤ a.pc ∧ ∃ rest, decode (bs.drop (a.pc - base)) = .ok a.ins a.size rest :=
+  unitListing_decodes base bs anns subs h
+
+theorem listing_decodes_top (bytes : List Nat) (anns : List Ann) (subs : List Sub)
+    (h : unitListing 0 bytes = some (anns, subs)) :
+    ∀ a ∈ anns, ∃ rest, decode (bytes.drop a.pc) = .ok a.ins a.size rest := by
+  intro a ha
+  obtain ⟨_, rest, hd⟩ := unitListing_decodes 0 bytes anns subs h a ha
+  exact ⟨rest, by simpa using hd⟩
 
 /-- non-vacuity: the real chunk of `f = |a, b| a + (b or 42)` (a nested unit with a forward jump)
 is accepted, and has two units -/
